@@ -11,14 +11,14 @@
 --     of `draw_integers`, the Merkle verdict of every trace / constraint opening with leaves recomputed from
 --     the opened rows by `hash_elements`, the FRI decision on the DEEP evaluations computed by the modelled
 --     composer, and `hash_elements(remainder) = last FRI commitment`.
--- (1) NO PANIC (`refVerify_never_panics_partial`): for EVERY byte string, a `panic` verdict of the reference
---     verifier is never one of the byte-level sites (`Proof::from_bytes`, the security estimate, the front end of
---     `verify` up to `VerifierChannel::new`): C06's parser and front-end theorems composed with the verdict
---     mapping.  Panic verdicts that remain possible: `AIR::new` and `evaluate_constraints` on a trace shape the
---     computation does not fit — these are panics of the REAL code (recorded finding c06.verify.air-new,
---     witness below) — and the internal index sites of the decision function's layer loop, whose unreachability
---     is stated (`RefVerifyTotal`) and not proved here.  The value-producing channel parse is proved panic free
---     on every parsed proof (`channelParse_np`).
+-- (1) NO PANIC: for EVERY byte string, a `panic` verdict of the reference verifier never comes from the byte-level
+--     part (`Proof::from_bytes`, the security estimate, the front end of `verify` up to `VerifierChannel::new` —
+--     C06's parser and front-end theorems composed with the verdict mapping; the value-producing channel parse is
+--     proved panic free here, `channelParse_np`): `refVerify_never_panics_partial`.  The full statement
+--     `RefVerifyTotal` — the ONLY panic verdicts are `AIR::new` and `evaluate_constraints` on a trace shape the
+--     computation does not fit, which are panics of the REAL code (recorded finding c06.verify.air-new, witness
+--     below) — is proved in WinterProofs/RefVerifierTotal.lean (`refVerify_never_panics`): after the front end has
+--     passed the decision function reaches none of its index sites (`fold_positions`, `get_query_values`, ...).
 import WinterProofs.C06
 import WinterProofs.Lemmas.C02Decision
 import WinterProofs.Lemmas.C03Bind
@@ -550,7 +550,7 @@ theorem frontAir_bits (d : Desc) : 32 ≤ (frontAir d).fieldBits := by
   show 32 ≤ F64.impl.M.log2 + 1
   decide +kernel
 
-/-- the full statement one would like: the only panic verdicts are the panics of the REAL code on a trace shape
+/-- the full statement (proved in WinterProofs/RefVerifierTotal.lean): the only panic verdicts are the panics of the REAL code on a trace shape
     the computation does not fit (`Air::new` cannot return an error: recorded finding c06.verify.air-new; the
     AIR's callbacks index the frame / validate the assertions against the untrusted trace info) -/
 def RefVerifyTotal (d : Desc) : Prop :=
@@ -558,13 +558,14 @@ def RefVerifyTotal (d : Desc) : Prop :=
     refVerify d pubs acc bs = .err (.panic s) → s = "AIR::new" ∨ s = "evaluate_constraints"
 
 open Model.Parse WinterProofs.C06 WinterProofs.C06L in
-/-- PARTIAL (proved for every byte string): a panic verdict of the reference verifier never comes from the
+/-- PARTIAL (the byte-level part; the rest is WinterProofs/RefVerifierTotal.lean): a panic verdict of the reference verifier never comes from the
     byte-level part — not from `Proof::from_bytes`, not from the security estimate, not from the front end of
     `verify` up to and including `VerifierChannel::new`, neither as modelled by `Parse.verifyFront` (C06) nor by the
     value-producing `channelParse` (`channelParse_np` above).  It is one of: the two panics of the real code
     named in `RefVerifyTotal`; or a panic site of the decision function `VerifierChecks.verify` reached AFTER the
     whole front end passed (its index sites `fold_positions`, `get_query_values`, … — unreachability not proved).
-    Missing from the full statement: exactly the last alternative. -/
+    Missing from the full statement: exactly the last alternative, which `core_no_panic` (RefVerifierTotal.lean)
+    excludes. -/
 theorem refVerify_never_panics_partial (d : Desc) (pubs : List Nat) (acc : Acceptable) (bs : List Nat)
     (hb : BytesOk bs) (hcols : ∀ ti o n, airNew (frontAir d) ti o = some n → n ≤ 255)
     (s : String) (h : refVerify d pubs acc bs = .err (.panic s)) :
